@@ -49,7 +49,84 @@ def exact_gradient(case):
     return out
 
 
-def replay(pyhf, backend, precision, chunk, seed):
+def atom_value(a, ncode, ainv):
+    """value (d false) or derivative with respect to alpha (d true) of one normsys factor; None at the kink of code 1"""
+    al = frac(a["alpha"])
+    lo, hi = leaf.mpf(frac(a["lo"])), leaf.mpf(frac(a["hi"]))
+    x = leaf.mpf(al)
+    if ncode == 1 and al == 0 and a["d"]:
+        return None
+    if ncode == 1 or abs(al) >= 1:
+        if al >= 0:
+            v = mp.power(hi, x)
+            return mp.log(hi) * v if a["d"] else v
+        v = mp.power(lo, -x)
+        return -mp.log(lo) * v if a["d"] else v
+    lu, ld = mp.log(hi), mp.log(lo)
+    b = [hi - 1, lo - 1, lu * hi, -ld * lo, lu * lu * hi, ld * ld * lo]
+    ai = ainv["1"]
+    coef = [sum(leaf.mpf(frac(ai[i][j])) * b[j] for j in range(6)) for i in range(6)]
+    if a["d"]:
+        return sum((i + 1) * coef[i] * x ** i for i in range(6))
+    return 1 + sum(coef[i] * x ** (i + 1) for i in range(6))
+
+
+def sym_sum(terms, ncode, ainv):
+    tot = mp.mpf(0)
+    for t in terms:
+        v = leaf.mpf(frac(t["coef"]))
+        for a in t["atoms"]:
+            av = atom_value(a, ncode, ainv)
+            if av is None:
+                return None
+            v *= av
+        tot += v
+    return tot
+
+
+def exact_gradient_sym(case, ainv):
+    """symbolic lane: d(2NLL)/d theta at the point with non-integer normsys alphas; None where a rate is not positive"""
+    ds = case["dsym"][0]
+    ncode = case["setting"]["ncode"]
+    main = [frac(v) for v in case["main_data"]]
+    rates, data, g = [], [], 0
+    for chan in ds["rates"]:
+        rr = []
+        for b in chan:
+            lam = sym_sum([dict(t, atoms=[dict(a, d=False) for a in t["atoms"]]) for t in b], ncode, ainv)
+            if lam is None or lam <= 0:
+                return None
+            rr.append(lam)
+        rates.append(rr)
+        data.append(main[g:g + len(chan)])
+        g += len(chan)
+    theta = {e["name"]: [frac(v) for v in e["vals"]] for e in ds["theta"]}
+    aux = {a["name"]: [frac(v) for v in a["vals"]] for a in case["aux_data"]}
+    par = {p["name"]: p for p in case["params"]}
+    out = {}
+    for ent in ds["dlambda"]:
+        n = ent["name"]
+        comps = []
+        for i, dl in enumerate(ent["comps"]):
+            tot = mp.mpf(0)
+            for ci, chan in enumerate(dl):
+                for b, terms in enumerate(chan):
+                    d = sym_sum(terms, ncode, ainv)
+                    if d is None:
+                        return None
+                    tot += 2 * (1 - leaf.mpf(data[ci][b]) / rates[ci][b]) * d
+            p = par[n]
+            th = leaf.mpf(theta[n][i])
+            if p["var"]:
+                tot += 2 * (th - leaf.mpf(aux[n][i])) / leaf.mpf(frac(p["var"][i]))
+            elif p["tau"]:
+                tot += 2 * (leaf.mpf(frac(p["tau"][i])) - leaf.mpf(aux[n][i]) / th)
+            comps.append(tot)
+        out[n] = comps
+    return out
+
+
+def replay(pyhf, backend, precision, chunk, seed, ainv=None):
     out = {"n": 0, "nontrivial": 0, "findings": [], "grads": 0}
     rng = random.Random(seed)
     tl = pyhf.tensorlib
@@ -73,56 +150,61 @@ def replay(pyhf, backend, precision, chunk, seed):
                 continue
         model = cache[key]
         cfg = model.config
-        pars = hfreplay.assemble_pars(model, case["theta"])
         data = hfreplay.assemble_data(model, case)
-        exact = exact_gradient(case)
-        exp_full = [None] * cfg.npars
-        for n_abs, comps in exact.items():
-            sl = cfg.par_slice(names.PARAMS[n_abs])
-            for i, v in enumerate(comps):
-                exp_full[sl.start + i] = float(v)
+        lanes = [("exact", hfreplay.assemble_pars(model, case["theta"]), exact_gradient(case), case["theta"])]
+        if case.get("dsym") and ainv:
+            ex = exact_gradient_sym(case, ainv)
+            if ex is not None:
+                lanes.append(("symbolic", hfreplay.assemble_pars(model, case["dsym"][0]["theta"]), ex, case["dsym"][0]["theta"]))
+                out["symbolic"] = out.get("symbolic", 0) + 1
         out["n"] += 1
         bounds = cfg.suggested_bounds()
         masks = [[]]
         if cfg.npars >= 2:
             masks.append([0])
             masks.append([cfg.npars - 1])
-        tags = [f"backend:{backend}", f"hcode{case['setting']['hcode']}", f"ncode{case['setting']['ncode']}"]
-        slim = {k: case[k] for k in ("spec", "setting", "theta")}
-        for fixed_idx in masks:
-            fixed_vals = [(i, pars[i]) for i in fixed_idx]
-            free = [i for i in range(cfg.npars) if i not in fixed_idx]
-            for do_stitch in (False, True):
-                try:
-                    kw, _ = shim(pyhf.infer.mle.twice_nll, data, model, pars, bounds, fixed_vals, do_grad=True, do_stitch=do_stitch)
-                    x0 = [pars[i] for i in free] if do_stitch else list(pars)
-                    val, grad = kw["func"](tl.astensor(x0))
-                    grad = [float(g) for g in tl.tolist(grad)]
-                    val = float(val)
-                    kw2, _ = shim(pyhf.infer.mle.twice_nll, data, model, pars, bounds, fixed_vals, do_grad=False, do_stitch=do_stitch)
-                    v2 = kw2["func"](tl.astensor(x0))
-                    try:
-                        val2 = float(v2)
-                    except Exception:  # noqa: BLE001
-                        val2 = float(tl.tolist(v2))
-                except Exception as e:  # noqa: BLE001
-                    add(f"value-and-gradient function failed: {type(e).__name__}: {e}", {"case": slim, "fixed": fixed_idx, "stitch": do_stitch}, tags + ["exception"])
-                    continue
-                out["grads"] += 1
-                det = {"case": slim, "pars": pars, "data": data, "fixed": fixed_idx, "do_stitch": do_stitch, "grad": grad}
-                if abs(val - val2) > 1e-9 * max(1.0, abs(val2)):
-                    add("objective value of the differentiating path differs from the plain path", dict(det, val=val, plain=val2), tags + ["value"])
-                idx = free if do_stitch else list(range(cfg.npars))
-                if len(grad) != len(idx):
-                    add(f"gradient has {len(grad)} components, expected {len(idx)} (one per {'free ' if do_stitch else ''}parameter)", det, tags + ["length"])
-                    continue
-                exp = [exp_full[i] for i in idx]
-                tol = 1e-8 if precision == "64b" else 1e-3
-                bad = [(i, g, e) for i, g, e in zip(idx, grad, exp)
-                       if (i in free or do_stitch) and abs(g - e) > tol * max(1.0, abs(e))]
-                if bad:
-                    add("gradient handed to the optimiser is not the exact derivative of twice the negative log-likelihood",
-                        dict(det, expected=exp, mismatch=bad[:4]), tags + ["gradient", f"stitch:{do_stitch}"])
+        for lane, pars, exact, theta_json in lanes:
+          exp_full = [None] * cfg.npars
+          for n_abs, comps in exact.items():
+            sl = cfg.par_slice(names.PARAMS[n_abs])
+            for i, v in enumerate(comps):
+                exp_full[sl.start + i] = float(v)
+          tags = [f"backend:{backend}", f"hcode{case['setting']['hcode']}", f"ncode{case['setting']['ncode']}", f"lane:{lane}"]
+          slim = {"spec": case["spec"], "setting": case["setting"], "theta": theta_json}
+          for fixed_idx in masks:
+              fixed_vals = [(i, pars[i]) for i in fixed_idx]
+              free = [i for i in range(cfg.npars) if i not in fixed_idx]
+              for do_stitch in (False, True):
+                  try:
+                      kw, _ = shim(pyhf.infer.mle.twice_nll, data, model, pars, bounds, fixed_vals, do_grad=True, do_stitch=do_stitch)
+                      x0 = [pars[i] for i in free] if do_stitch else list(pars)
+                      val, grad = kw["func"](tl.astensor(x0))
+                      grad = [float(g) for g in tl.tolist(grad)]
+                      val = float(val)
+                      kw2, _ = shim(pyhf.infer.mle.twice_nll, data, model, pars, bounds, fixed_vals, do_grad=False, do_stitch=do_stitch)
+                      v2 = kw2["func"](tl.astensor(x0))
+                      try:
+                          val2 = float(v2)
+                      except Exception:  # noqa: BLE001
+                          val2 = float(tl.tolist(v2))
+                  except Exception as e:  # noqa: BLE001
+                      add(f"value-and-gradient function failed: {type(e).__name__}: {e}", {"case": slim, "fixed": fixed_idx, "stitch": do_stitch}, tags + ["exception"])
+                      continue
+                  out["grads"] += 1
+                  det = {"case": slim, "pars": pars, "data": data, "fixed": fixed_idx, "do_stitch": do_stitch, "grad": grad}
+                  if abs(val - val2) > 1e-9 * max(1.0, abs(val2)):
+                      add("objective value of the differentiating path differs from the plain path", dict(det, val=val, plain=val2), tags + ["value"])
+                  idx = free if do_stitch else list(range(cfg.npars))
+                  if len(grad) != len(idx):
+                      add(f"gradient has {len(grad)} components, expected {len(idx)} (one per {'free ' if do_stitch else ''}parameter)", det, tags + ["length"])
+                      continue
+                  exp = [exp_full[i] for i in idx]
+                  tol = 1e-8 if precision == "64b" else 1e-3
+                  bad = [(i, g, e) for i, g, e in zip(idx, grad, exp)
+                         if (i in free or do_stitch) and abs(g - e) > tol * max(1.0, abs(e))]
+                  if bad:
+                      add("gradient handed to the optimiser is not the exact derivative of twice the negative log-likelihood",
+                          dict(det, expected=exp, mismatch=bad[:4]), tags + ["gradient", f"stitch:{do_stitch}"])
         if cfg.npars >= 2:
             out["nontrivial"] += 1
     return out
